@@ -22,7 +22,7 @@ using tbox::event::Loop;
 using tbox::event::SignalEvent;
 
 namespace {
-enum { CFG, NEW, ENABLE, DISABLE, DESTROY, RAISE, BATCH, BURST, NOPS };
+enum { CFG, NEW, ENABLE, DISABLE, DESTROY, RAISE, BATCH, BURST, REINIT, NOPS };
 const int kNSig = 6, kMaxLoops = 3, kMaxEvents = 10;
 int sig_of(int i) { static const int base[2] = {SIGUSR1, SIGUSR2}; return i < 2 ? base[i] : SIGRTMIN + 1 + (i - 2); }
 
@@ -46,6 +46,8 @@ struct Ev {
   int act = 0;   // what the event's callback does: 0 nothing, 1 enable() itself (re-arms a one-shot event), 2 disable() itself, 3 disable() then enable() itself,
                  // 4 disable() the sibling event `tgt` (an event of the same loop that was created earlier and has act 0)
   int tgt = -1; std::atomic<bool> tgt_alive{false};
+  bool bad = false;   // its signal set contains SIGKILL, which sigaction() refuses: enable() must fail and leave everything else alone (model mask 0)
+  int reinits = 0;
   int slack[kNSig] = {0};   // deliveries for which 0 or 1 callback is acceptable (the event was disabled by a sibling's callback during that very dispatch)
   std::atomic<int> act_failed{0};
   std::atomic<int> calls[kNSig]; std::atomic<int> wrong_thread{0}, wrong_signo{0};
@@ -96,7 +98,7 @@ std::string run(const Scenario &s, CaseInfo &info) {
   std::string err; char buf[300];
   int sentinel_expect[kNSig] = {0};
   bool nt_two_loops_one_sig = false, nt_resubscribe_after_zero = false; bool went_zero[kNSig] = {false};
-  int raises = 0, skipped_raises = 0, oneshot_fired = 0, nt_batches = 0, nt_bursts = 0, nt_rearm = 0, nt_self_disable = 0, nt_sibling = 0, nt_sibling_in_dispatch = 0;
+  int raises = 0, skipped_raises = 0, oneshot_fired = 0, nt_batches = 0, nt_bursts = 0, nt_rearm = 0, nt_self_disable = 0, nt_sibling = 0, nt_sibling_in_dispatch = 0, nt_failed_enable = 0, nt_reinit = 0;
 
   auto subs_of = [&](int si) { int n = 0; for (int e = 0; e < nev; ++e) if (evs[e].alive && evs[e].enabled && (evs[e].mask >> si & 1)) n++; return n; };
   auto check_disposition = [&](const char *after) {
@@ -131,10 +133,13 @@ std::string run(const Scenario &s, CaseInfo &info) {
           std::vector<int> cand; for (int j = 0; j < nev; ++j) if (evs[j].alive && evs[j].loop == E.loop && evs[j].act == 0) cand.push_back(j);
           if (cand.empty()) E.act = 0; else { E.tgt = cand[op.in(4, 0, (int64_t)cand.size() - 1)]; E.tgt_alive = true; }
         }
+        unsigned real_mask = E.mask;
+        if (op.in(5, 0, 7) == 7) { E.bad = true; E.mask = 0; E.act = 0; E.tgt = -1; }
         int e = nev; LoopThread *L = &lt[E.loop]; Ev *Ep = &E; Ev *Tp = E.tgt >= 0 ? &evs[E.tgt] : nullptr;
-        L->call([&, e, L, Ep, Tp] {
+        L->call([&, e, L, Ep, Tp, real_mask] {
           Ep->ev = L->loop->newSignalEvent("c04");
-          std::set<int> ss; for (int i = 0; i < kNSig; ++i) if (Ep->mask >> i & 1) ss.insert(sig_of(i));
+          std::set<int> ss; for (int i = 0; i < kNSig; ++i) if (real_mask >> i & 1) ss.insert(sig_of(i));
+          if (Ep->bad) ss.insert(SIGKILL);   // the smallest number of the set: the subscription fails before anything else was subscribed
           if (ss.size() == 1 && (e & 1)) Ep->ev->initialize(*ss.begin(), Ep->oneshot ? tbox::event::Event::Mode::kOneshot : tbox::event::Event::Mode::kPersist);
           else Ep->ev->initialize(ss, Ep->oneshot ? tbox::event::Event::Mode::kOneshot : tbox::event::Event::Mode::kPersist);
           Ep->ev->setCallback([Ep, L, Tp](int signo) {
@@ -157,11 +162,30 @@ std::string run(const Scenario &s, CaseInfo &info) {
           if (E.ev) en_after = E.ev->isEnabled();
         });
         if (op.code == ENABLE) E.enabled = true; else E.enabled = false;
+        if (op.code == ENABLE && E.bad) {   // a subscription sigaction() refuses
+          E.enabled = false; nt_failed_enable++;
+          if (ok) { snprintf(buf, sizeof buf, "op %zu: enable() of event %d, whose signal set contains SIGKILL, returned true", k, e); err = buf; break; }
+          ok = true;
+        }
         if (op.code == DESTROY) { E.alive = false; for (int j = 0; j < nev; ++j) if (evs[j].tgt == e) evs[j].tgt_alive = false; }
         if (!ok) { snprintf(buf, sizeof buf, "op %zu: %s of event %d returned false", k, op.code == ENABLE ? "enable()" : "disable()", e); err = buf; break; }
         if (E.alive && en_after != E.enabled) { snprintf(buf, sizeof buf, "op %zu: isEnabled() of event %d is %d, model says %d", k, e, (int)en_after, (int)E.enabled); err = buf; break; }
         for (int i = 0; i < kNSig; ++i) if ((E.mask >> i & 1) && subs_of(i) == 0) went_zero[i] = true;
         check_disposition(op.code == ENABLE ? "enable" : op.code == DISABLE ? "disable" : "destroy");
+        break; }
+      case REINIT: {   // the same event object gets another signal set / mode (std::set overload of initialize(): replaces the set)
+        if (nev == 0) break;
+        int e = (int)op.in(0, 0, nev - 1); Ev &E = evs[e]; if (!E.alive || E.bad) break;
+        unsigned nm = (unsigned)op.in(1, 1, (1 << kNSig) - 1); bool no = op.in(2, 0, 3) == 0; bool ok1 = true, ok2 = true;
+        lt[E.loop].call([&] {
+          ok1 = E.ev->disable();
+          std::set<int> ss; for (int i = 0; i < kNSig; ++i) if (nm >> i & 1) ss.insert(sig_of(i));
+          ok2 = E.ev->initialize(ss, no ? tbox::event::Event::Mode::kOneshot : tbox::event::Event::Mode::kPersist);
+        });
+        unsigned old = E.mask; E.enabled = false; E.mask = nm; E.oneshot = no; E.reinits++; nt_reinit++;
+        if (!ok1 || !ok2) { snprintf(buf, sizeof buf, "op %zu: disable()/initialize() of event %d returned false", k, e); err = buf; break; }
+        for (int i = 0; i < kNSig; ++i) if (((old | nm) >> i & 1) && subs_of(i) == 0) went_zero[i] = true;
+        check_disposition("re-initialisation");
         break; }
       case BATCH: {
         // several subscription changes on events of ONE loop inside ONE loop task (e.g. "disable the loop's last
@@ -173,7 +197,7 @@ std::string run(const Scenario &s, CaseInfo &info) {
         for (int j = 0; j < 4; ++j) {
           int e = (int)op.in(1 + 2 * j, 0, nev - 1); int act = (int)op.in(2 + 2 * j, 0, 1);
           if (j == 0) e = first;
-          if (!evs[e].alive || evs[e].loop != L) continue;
+          if (!evs[e].alive || evs[e].loop != L || evs[e].bad) continue;
           steps.push_back({e, act});
         }
         if (steps.size() >= 2) nt_batches++;
@@ -273,6 +297,8 @@ std::string run(const Scenario &s, CaseInfo &info) {
   info.cls_if(nt_bursts > 0, "burst_of_deliveries_while_loops_busy");
   info.cls_if(nt_rearm > 0, "oneshot_rearmed_in_its_own_callback");
   info.cls_if(nt_self_disable > 0, "event_disabled_itself_in_its_callback");
+  info.cls_if(nt_failed_enable > 0, "enable_of_an_uncatchable_signal_refused");
+  info.cls_if(nt_reinit > 0, "event_object_initialised_again_with_another_signal_set");
   info.cls_if(nt_sibling > 0, "callback_disabled_a_sibling_event");
   info.cls_if(nt_sibling_in_dispatch > 0, "sibling_disabled_during_the_dispatch_it_takes_part_in");
   info.nontrivial = raises > 0 && nt_two_loops_one_sig && nt_resubscribe_after_zero;
@@ -281,8 +307,8 @@ std::string run(const Scenario &s, CaseInfo &info) {
 
 SubDef def = [] {
   SubDef d; d.name = "signals";
-  d.op_names = {"cfg", "new", "enable", "disable", "destroy", "raise", "batch", "burst"};
-  d.op_arity = {7, 5, 1, 1, 1, 1, 9, 8};
+  d.op_names = {"cfg", "new", "enable", "disable", "destroy", "raise", "batch", "burst", "reinit"};
+  d.op_arity = {7, 6, 1, 1, 1, 1, 9, 8, 3};
   d.nt_rule = "history with a delivery that reaches subscribers in >= 2 loops and >= 1 unsubscribe-to-zero of a signal followed by a re-subscription of it";
   d.run = run;
 #ifndef VERIF_ENGINE_FUZZ
@@ -290,16 +316,17 @@ SubDef def = [] {
     auto ev = range(0, kMaxEvents - 1);
     auto mask = rc::gen::weightedOneOf<int64_t>({{3, oneOfValues({1, 2, 4, 3})}, {2, range(1, 63)}});
     auto opg = rc::gen::weightedOneOf<Op>({
-      {4, mkop(NEW, {range(0, kMaxLoops - 1), mask, range(0, 3), range(0, 9), range(0, kMaxEvents - 1)})},
+      {4, mkop(NEW, {range(0, kMaxLoops - 1), mask, range(0, 3), range(0, 9), range(0, kMaxEvents - 1), rc::gen::weightedOneOf<int64_t>({{6, range(0, 6)}, {1, rc::gen::just<int64_t>(7)}})})},
       {6, mkop(ENABLE, {ev})},
       {4, mkop(DISABLE, {ev})},
       {1, mkop(DESTROY, {ev})},
       {6, mkop(RAISE, {rc::gen::weightedOneOf<int64_t>({{3, range(0, 1)}, {1, range(0, kNSig - 1)}})})},
       {3, mkop(BATCH, {ev, ev, range(0, 1), ev, range(0, 1), ev, range(0, 1), ev, range(0, 1)})},
+      {2, mkop(REINIT, {ev, mask, range(0, 3)})},
       {2, mkop(BURST, {range(2, 7), range(0, 2), range(0, 2), range(0, 2), range(0, 2), range(0, 2), range(0, kNSig - 1), range(0, kNSig - 1)})},
     });
     auto cfg = mkop(CFG, {rc::gen::weightedOneOf<int64_t>({{1, rc::gen::just<int64_t>(1)}, {3, range(2, kMaxLoops)}}), range(0, 4), range(0, 4), range(0, 4), range(0, 4), range(0, 4), range(0, 4)});
-    auto mk = mkop(NEW, {range(0, kMaxLoops - 1), mask, range(0, 3), range(0, 9), range(0, kMaxEvents - 1)});
+    auto mk = mkop(NEW, {range(0, kMaxLoops - 1), mask, range(0, 3), range(0, 9), range(0, kMaxEvents - 1), rc::gen::weightedOneOf<int64_t>({{6, range(0, 6)}, {1, rc::gen::just<int64_t>(7)}})});
     auto en = mkop(ENABLE, {ev});
     return scenarioOf(fixedOps({cfg, mk, mk, mk, mk, en, en, en}), opsOf(opg));
   };
